@@ -14,7 +14,7 @@ CHECKS = {
             "the boolean validator validb is proved equivalent to Valid and is run (extracted) on every graph any entry point of the "
             "implementation returns (fromdict, loads, Builder, from_ms, in_generations, rename_demes), next to an independent Python validator. "
             "in_generations on binary64 is a known finding (float quotient)."),
-    "C02": ("proof", "Coq lemmas for each resolution rule about the model of fromdict + exact correspondence + metamorphic spelling/route/sharing comparison",
+    "C02": ("proof", "Coq theorems for each resolution rule at builder and at document level (incl. key-order invariance of fromdict) + exact correspondence + metamorphic spelling/route/sharing comparison",
             "Each resolution rule of the specification is an equation proved about Model/Resolve.v (precedence of defaults, inferred start time, "
             "proportions, sizes, size function, symmetric expansion, per-pair bounds, stable pulse sort); the model is compared bit-exactly with "
             "Graph.fromdict on re-spelt documents; equivalent spellings, the YAML/JSON/dict/Builder routes and documents with shared sub-objects "
@@ -60,7 +60,7 @@ CHECKS = {
             "stringify leaves no non-finite number outside metadata; unstringify inverts it and touches only deme/migration start_time and the two "
             "defaults; a null reachable by the walker outside top-level metadata is refused. That all six entry points apply the pipeline, and nulls "
             "inside nested lists (caught by type validation), are checked on the implementation."),
-    "C07": ("translation_validation", "ms semantics (coq/Spec/MsSem.v) run on every emitted command and compared with the graph + exact correspondence of Model/ToMs.v; structural Coq theorems about the emitted event list",
+    "C07": ("translation_validation", "ms semantics (coq/Spec/MsSem.v) run on every emitted command and compared with the graph + exact correspondence of Model/ToMs.v; structural Coq theorems about the emitted event list and semantic theorems (rates, existence of populations) against MsSem",
             "Every command to_ms emits for generated ms-expressible graphs (any ancestry shape, coincident times, extinct demes, chained pulses, sawtooth "
             "histories) and N0 values is interpreted by an executable transcription of the ms manual's backwards-time rules and compared with the graph: "
             "sizes and incoming rates at two interior points of every interval of the common refinement of both sides' boundaries (exhaustive for "
